@@ -14,6 +14,7 @@ import (
 	"strings"
 	"sync"
 	"sync/atomic"
+	"syscall"
 	"time"
 
 	"github.com/andybalholm/brotli"
@@ -110,6 +111,9 @@ type Origin struct {
 	mu    sync.Mutex
 	srv   *http.Server
 	ln    net.Listener
+	// hold: while the origin is down its port stays bound (not listening) by this socket, so that nobody else on
+	// the machine - a listener on port 0 or an outgoing connection of any process - is given the port meanwhile
+	hold  int
 	Reqs  atomic.Int64 // non-ping requests received
 	Pings atomic.Int64
 	Conns atomic.Int64
@@ -149,6 +153,10 @@ func (o *Origin) Up() error {
 	if o.Port != 0 {
 		addr = "127.0.0.1:" + strconv.Itoa(o.Port)
 	}
+	if o.hold > 0 {
+		syscall.Close(o.hold - 1)
+		o.hold = 0
+	}
 	var ln net.Listener
 	var err error
 	for i := 0; i < 200; i++ {
@@ -184,6 +192,9 @@ func (o *Origin) Down() {
 	o.srv.Close()
 	o.ln = nil
 	o.srv = nil
+	if fd, err := ReservePort(o.Port, true); err == nil {
+		o.hold = fd + 1
+	}
 }
 
 // IsUp whether the origin listens
